@@ -1109,6 +1109,16 @@ class World:
             ctx.i4.append(vent.name)
             if "I5" in self.inv:
                 self.check_solve_contract(vent, ret, M, RHS, x_exp, fake, mode, degenerate, ctx)
+            elif self.prop == "C15" and M is not None and not degenerate:
+                # frame condition of the expert-level entry point (C15)
+                Mk, Rk = A.snap_csr(M), A.akey(RHS)
+                try:
+                    pf.solveMatrixPDE(ment.obj, M, RHS)
+                except Exception:
+                    pass
+                if (A.snap_csr(M), A.akey(RHS)) != (Mk, Rk):
+                    self.flag("C15", "I1", "solveMatrixPDE/t/operand", {"var": vent.name})
+                self.oracle_runs["I1-matrixpde"] += 1
         if mode in ("ext", "ext_mark", "ext_scribble", "ext_nan") and fake.calls:
             self.stats["seam:external-solver-used"] += 1
             if mode == "ext_scribble":
@@ -1223,6 +1233,8 @@ class World:
         vent.meta["last_consume"] = self.step
         ctx.derived.add(vent.name)
         ctx.i3.append(vent.name)
+        if not exact(rhs, rhs_before):
+            self.flag("C15", "I1", "explicit/rhs/operand", {"var": vent.name})
         if got != "ok":
             ctx.status = "raised:" + got
             self._note_consumer_fault(vent, ctx)
